@@ -78,6 +78,12 @@ fn gap(t: &mut Tape, v: &Variant, must_have_blank: bool) -> String {
     // a token boundary: optional extra blanks / tabs / block comment. If the rule text has a blank
     // here, a blank must come first (a whitespace pattern part wants a whitespace token next).
     let mut s = String::new();
+    if v.spacing && crate::engine::gen_version() >= 2 && must_have_blank {
+        // v2: the additional blanks/tabs may stand BEFORE the blank the rule text asks for (`ld<TAB> 5`)
+        for _ in 0..t.draw(3) {
+            s.push(if t.chance(1, 2) { '\t' } else { ' ' });
+        }
+    }
     if must_have_blank {
         s.push(' ');
     }
